@@ -18,14 +18,16 @@ RL3 = '{{}, {"r1"}, {"r1", "r2"}}'
 RL4 = '{{}, {"r1"}, {"r2"}, {"r1", "r2"}}'
 
 
-def conf(n, depth, subs, d, rl=RL3, sample=0, odd=True, decl=None):
+def conf(n, depth, subs, d, rl=RL3, sample=0, odd=True, decl=None, plugin=False):
     # the runs over pairs / triples of directives leave out the placements that cover nothing, switch statements and
     # (unless decl=True) the sites whose diagnostic is raised by a later pass (declare local, unused acl)
     if decl is None:
         decl = odd
     return {"MaxStmts": str(n), "MaxDepth": str(depth), "MaxSubs": str(subs), "MaxDir": str(d),
             "RuleLists": rl, "Sample": str(sample), "Odd": "TRUE" if odd else "FALSE",
-            "Switch": "TRUE" if odd else "FALSE", "Decl": "TRUE" if decl else "FALSE"}
+            "Switch": "TRUE" if odd else "FALSE", "Decl": "TRUE" if decl else "FALSE",
+            # plugin=True: every statement site also carries the diagnostic of a lint plugin (one process per site and lint)
+            "Plugin": "TRUE" if plugin else "FALSE"}
 
 
 def run(ctx):
@@ -57,6 +59,7 @@ def run(ctx):
     if quick:
         runs = [("one-directive", conf(2, 1, 2, 1, decl=False), None),
                 ("later-pass-sites", conf(2, 1, 1, 1), None),
+                ("plugin-diagnostics", conf(2, 1, 1, 1, decl=False, plugin=True), None),
                 ("later-pass-sites-pairs", conf(2, 0, 1, 2, RL2, odd=False, decl=True), None),
                 ("later-pass-sites-2subs", conf(1, 0, 2, 2, RL2, odd=False, decl=True), None),
                 ("two-directives", conf(2, 1, 1, 2, RL2, odd=False), None),
@@ -67,6 +70,8 @@ def run(ctx):
     else:
         runs = [("one-directive", conf(3, 2, 1, 1, decl=False), "coverage"),
                 ("one-directive-2subs", conf(2, 1, 2, 1), None),
+                ("plugin-diagnostics", conf(2, 1, 2, 1, decl=False, plugin=True), None),
+                ("plugin-diagnostics-pairs", conf(2, 1, 1, 2, RL2, odd=False, plugin=True), None),
                 ("later-pass-sites-pairs", conf(2, 0, 2, 2, RL2, odd=False, decl=True), None),
                 ("two-directives-2subs", conf(2, 1, 2, 2, RL2, odd=False), None),
                 ("two-directives-nested", conf(2, 2, 1, 2, RL3, odd=False), None),
